@@ -14,7 +14,7 @@ ASSUMPTIONS = ['accepted side: unit norm within 1e-12, direction cosine with the
                'the generator behind random_attitudes is an owned seam: np.random.default_rng is replaced by a stub whose uniform() returns every point of {0,1e-12,.25,.5,.75,1-1e-12}^3',
                'rotate_by(order="S") is only required to return unit rows (its intended ordering semantics are ambiguous in the documentation)',
                'infinite components are not judged (the statement speaks of finite vectors and of NaN)']
-REQUIRED_CLASSES = ['reject:object-unchanged', 'near-unit', 'vec3', 'vec4', 'array', 'dcm-route', 'addsub', 'rotate_by', 'average', 'random', 'reject:vector', 'reject:matrix', 'accept:matrix', 'layout']
+REQUIRED_CLASSES = ['reject:object-unchanged', 'near-unit', 'vec3', 'vec4', 'array', 'dcm-route', 'addsub', 'addsub:near-cancelling', 'rotate_by', 'average', 'random', 'reject:vector', 'reject:matrix', 'accept:matrix', 'layout']
 DECADES = [10.0 ** k for k in range(-100, 101, 10)]
 
 
@@ -173,6 +173,46 @@ def job_addsub(ctx, lo, hi):
                     ra = np.asarray(rr)
                     ctx.expect(_is_unit_real(ra) and float(ra @ ref) / n >= 1 - 1e-12, f'p {nm} q is the normalised sum', key, ra, ref / n, 1e-12)
                 ctx.cls('addsub'); ctx.seen(('addsub', i, j, nm))
+    if lo == 0:
+        # nearly cancelling differences / sums (|p -+ q| from 1e-3 down to 1e-8: small, not vanishing) and a second operand that is not unit:
+        # still a real unit quaternion along the exact sum
+        G = A.G48()
+        for i in range(0, len(G), 5):
+            p_ = G[i]
+            d_ = G[(i + 7) % len(G)]
+            for eps in (1e-3, 1e-5, 1e-6, 1e-7, 1e-8):
+                q_ = rq.qunit(p_ + eps * d_)
+                for op, nm, other in ((-1.0, '-', q_), (1.0, '+', -q_)):
+                    ref = p_ + op * other
+                    n = rq.qnorm(ref)
+                    if n < 1e-9:
+                        continue
+                    key = f'p=G48[{i}] {nm} (q at distance {eps:g} of {"p" if op < 0 else "-p"})'
+                    for form, mk in (('Quaternion', lambda: Quaternion(other.copy())), ('ndarray', lambda: other.copy())):
+                        ctx.evals += 1
+                        try:
+                            P = Quaternion(p_.copy())
+                            r = np.asarray((P + mk()) if op > 0 else (P - mk()))
+                        except Exception as ex:
+                            ctx.fail(f'Quaternion {nm} raises on a small, non-vanishing result', f'{key} operand={form}', repr(ex)[:160], 'unit quaternion'); continue
+                        tl = 1e-12 + 1e-15 / n
+                        ctx.expect(_is_unit_real(r) and float(r @ ref) / n >= 1 - tl, f'p {nm} q nearly cancelling: the normalised sum, a real unit quaternion', f'{key} operand={form}', r, ref / n, tl)
+            for scale in (3.0, 0.01, 250.0):
+                raw = d_ * scale
+                for op, nm in ((1.0, '+'), (-1.0, '-')):
+                    ref = p_ + op * raw
+                    n = rq.qnorm(ref)
+                    if n < 1e-6:
+                        continue
+                    ctx.evals += 1
+                    key = f'p=G48[{i}] {nm} ndarray of norm {scale:g}'
+                    try:
+                        P = Quaternion(p_.copy())
+                        r = np.asarray((P + raw.copy()) if op > 0 else (P - raw.copy()))
+                    except Exception as ex:
+                        ctx.fail(f'Quaternion {nm} raises for a non-unit array operand', key, repr(ex)[:160], 'unit quaternion'); continue
+                    ctx.expect(_is_unit_real(r) and float(r @ ref) / n >= 1 - 1e-12, f'p {nm} (non-unit array): the normalised sum', key, r, ref / n, 1e-12)
+        ctx.cls('addsub:near-cancelling')
     ctx.sample({'p': S[lo].tolist(), 'q': S[-1].tolist(), 'op': '+/-'})
 
 
@@ -503,7 +543,11 @@ def job_reject(ctx, k):
               ('Quaternion(dcm=DCM-typed array)', lambda M: Quaternion(dcm=typed(M))), ('DCM(DCM-typed array)', lambda M: DCM(typed(M))),
               ('QuaternionArray(DCM=)', lambda M: QuaternionArray(DCM=M.copy()[None])),
               ('DCM(stack [M])', lambda M: DCM(M.copy()[None])), ('DCM(stack [good, M, good])', lambda M: DCM(np.array([good, M.copy(), good]))),
-              ('QuaternionArray(DCM=[good, M])', lambda M: QuaternionArray(DCM=np.array([good, M.copy()])))]
+              ('QuaternionArray(DCM=[good, M])', lambda M: QuaternionArray(DCM=np.array([good, M.copy()]))),
+              ('QuaternionArray(DCM=[M, good])', lambda M: QuaternionArray(DCM=np.array([M.copy(), good]))),
+              ('QuaternionArray(DCM=[good, M, good, good])', lambda M: QuaternionArray(DCM=np.array([good, M.copy(), good, good]))),
+              ('QuaternionArray().from_DCM([M, good, good])', lambda M: QuaternionArray().from_DCM(np.array([M.copy(), good, good]))),
+              ('DCM(stack [M, good])', lambda M: DCM(np.array([M.copy(), good])))]
 
     def perturbs(eps):
         out = [('scale+', np.eye(3) * (1 + eps)), ('scale-', np.eye(3) * (1 - eps)), ('scale-x', np.diag([1 + eps, 1.0, 1.0]))]
